@@ -37,3 +37,38 @@ package diodes
 //@   ensures [C10] cast(callarg(atomic.CompareAndSwapPointer, ncalls(atomic.CompareAndSwapPointer) - 1, 2), "*bucket").seq == callres(atomic.AddUint64, ncalls(atomic.AddUint64) - 1, 0) && cast(callarg(atomic.CompareAndSwapPointer, ncalls(atomic.CompareAndSwapPointer) - 1, 2), "*bucket").data == data
 //@   ensures [C11] callarg(atomic.CompareAndSwapPointer, ncalls(atomic.CompareAndSwapPointer) - 1, 1) != nil && cast(callarg(atomic.CompareAndSwapPointer, ncalls(atomic.CompareAndSwapPointer) - 1, 1), "*bucket").seq < 9223372036854775808 ==> cast(callarg(atomic.CompareAndSwapPointer, ncalls(atomic.CompareAndSwapPointer) - 1, 1), "*bucket").seq < cast(callarg(atomic.CompareAndSwapPointer, ncalls(atomic.CompareAndSwapPointer) - 1, 2), "*bucket").seq
 //@   ensures [C11] ncalls(atomic.AddUint64) == old(ncalls(atomic.AddUint64)) + 1
+
+//@ func (*Poller).isDone(p) res
+//@   trusted
+//@   modifies nothing
+
+//@ func (*Waiter).isDone(w) res
+//@   trusted
+//@   modifies nothing
+
+// Next returns nil only after an empty TryNext with the context done, and
+// otherwise hands out exactly what the last TryNext delivered.
+//@ func (*Poller).Next(p) res
+//@   props C11
+//@   arith int
+//@   requires p != nil && p.Diode != nil
+//@   ensures ncalls(Diode.TryNext) > old(ncalls(Diode.TryNext))
+//@   ensures !callres(Diode.TryNext, ncalls(Diode.TryNext) - 1, 1) ==> res == nil && ncalls(Poller.isDone) > old(ncalls(Poller.isDone)) && callres(Poller.isDone, ncalls(Poller.isDone) - 1, 0)
+//@   ensures callres(Diode.TryNext, ncalls(Diode.TryNext) - 1, 1) ==> res == callres(Diode.TryNext, ncalls(Diode.TryNext) - 1, 0)
+
+//@ func (*Waiter).Next(w) res
+//@   props C11
+//@   arith int
+//@   requires w != nil && w.Diode != nil && w.c != nil && !held(w.mu)
+//@   ensures ncalls(Diode.TryNext) > old(ncalls(Diode.TryNext))
+//@   ensures !callres(Diode.TryNext, ncalls(Diode.TryNext) - 1, 1) ==> res == nil && ncalls(Waiter.isDone) > old(ncalls(Waiter.isDone)) && callres(Waiter.isDone, ncalls(Waiter.isDone) - 1, 0)
+//@   ensures callres(Diode.TryNext, ncalls(Diode.TryNext) - 1, 1) ==> res == callres(Diode.TryNext, ncalls(Diode.TryNext) - 1, 0)
+//@   ensures !held(w.mu)
+
+// Waiter.Set hands the datum to the ring and wakes the consumer without
+// taking the waiter's mutex.
+//@ func (*Waiter).Set(w, data)
+//@   props C10
+//@   arith int
+//@   requires w != nil && w.Diode != nil && w.c != nil
+//@   ensures ncalls(Diode.Set) == old(ncalls(Diode.Set)) + 1 && callarg(Diode.Set, old(ncalls(Diode.Set)), 0) == w.Diode && callarg(Diode.Set, old(ncalls(Diode.Set)), 1) == data
